@@ -422,7 +422,7 @@ def do_call(sess: Session, call: dict) -> dict:
         ind_before = params_with_indent(ops)
         d = ExplorerScriptSsbDecompiler(infos, ops, coros, PERF_VAR, DungeonModeConstants(*DMODE))
         if call.get("keep"):
-            sess.decompilers[call["keep"]] = d
+            sess.decompilers[call["keep"]] = (d, infos, ops)
         try:
             text, sm = d.convert()
             res = {"text": text, "source_map": sm_json(sm)}
@@ -431,22 +431,29 @@ def do_call(sess: Session, call: dict) -> dict:
         res["input_before"] = before
         res["input_after"] = rsjson.rs_to_json(infos, ops, [None] * len(infos))
         ind_after = params_with_indent(ops)
-        res["indent_changed"] = sum(1 for a, b in zip(ind_before, ind_after) if a != b)
+        res["_indent_changed"] = sum(1 for a, b in zip(ind_before, ind_after) if a != b)
         return res
     if kind == "convert_again":
-        d = sess.decompilers.get(call["keep"])
-        if d is None:
+        ent = sess.decompilers.get(call["keep"])
+        if ent is None:
             return {"skipped": "no such decompiler"}
+        d, infos, ops = ent
+        before = rsjson.rs_to_json(infos, ops, [None] * len(infos))
+        ind_before = params_with_indent(ops)
         try:
             text, sm = d.convert()
-            return {"text": text, "source_map": sm_json(sm)}
+            res = {"text": text, "source_map": sm_json(sm)}
         except BaseException as e:  # noqa
-            return _exc(e)
+            res = _exc(e)
+        res["input_before"] = before
+        res["input_after"] = rsjson.rs_to_json(infos, ops, [None] * len(infos))
+        res["_indent_changed"] = sum(1 for a, b in zip(ind_before, params_with_indent(ops)) if a != b)
+        return res
     if kind == "cli_read":
         from explorerscript.cli import decompile as cd
         from explorerscript.ssb_converting.ssb_data_types import DungeonModeConstants
         from explorerscript.ssb_converting.ssb_decompiler import ExplorerScriptSsbDecompiler
-        if call.get("reset_counter"):       # diagnosis only
+        if call.get("reset_counter") and hasattr(cd, "counter"):       # diagnosis only
             cd.counter.count = 0
         try:
             infos, coros, ops = cd.read_routines(call["routines"])
@@ -506,7 +513,8 @@ def do_call(sess: Session, call: dict) -> dict:
 
 
 def digest(res: dict) -> str:
-    return hashlib.sha256(json.dumps(res, sort_keys=True, ensure_ascii=True).encode()).hexdigest()[:16]
+    """keys starting with '_' are measurements of the run, not part of the result"""
+    return hashlib.sha256(json.dumps({k: v for k, v in res.items() if not k.startswith("_")}, sort_keys=True, ensure_ascii=True).encode()).hexdigest()[:16]
 
 
 def run_session(arg: dict) -> dict:
@@ -531,7 +539,7 @@ def run_session(arg: dict) -> dict:
             row["summary"]["fallback"] = res["text"].startswith("//?: is-ssb-script")
         if "input_after" in res:
             row["input_same"] = res["input_after"] == res["input_before"]
-            row["indent_changed"] = res.get("indent_changed", 0)
+            row["indent_changed"] = res.get("_indent_changed", 0)
         if full == "all" or i in full:
             row["full"] = res
         out["results"].append(row)
